@@ -69,6 +69,16 @@ W_FLAT = {
 
 W_MIX_ATTR = dict(W_MIX, name="W-mix-attr", refattr=True)
 
+# two linear knobs sharing a target (and a reader of that target)
+W_KNOBS = {
+    "name": "W-knobs",
+    "data": {"a": 1, "d": 2, "b": 10, "c": 20, "e": 0},
+    "leaves": [P("a"), P("d"), P("c"), P("e")],
+    "containers": {},
+    "funs": {},
+    "knobs": {"K1": (P("a"), (1, 2), (P("b"), P("c"))), "K2": (P("d"), (3,), (P("c"),))},
+}
+
 # three levels of nesting: targets s['n']['m']['x'] and readers of the containers two levels above them
 W_DEEP = {
     "name": "W-deep",
@@ -78,7 +88,7 @@ W_DEEP = {
     "funs": {}, "knobs": {},
 }
 
-WORLDS = {w["name"]: w for w in (W_NEST, W_NEST_4, W_NEST_SMALL, W_MIX, W_FLAT, W_MIX_ATTR, W_DEEP)}
+WORLDS = {w["name"]: w for w in (W_NEST, W_NEST_4, W_NEST_SMALL, W_MIX, W_FLAT, W_MIX_ATTR, W_DEEP, W_KNOBS)}
 
 
 def tmpl(name, args):
@@ -216,12 +226,17 @@ def task_regions(ms):
 
 def enabled(ms, universe, allow_cycles=False):
     fk = task_regions(ms)
+    fonly = [w for t in ms.tasks.values() if t.kind == "F" for w in t.writes]
     res = []
     for i, op in enumerate(universe):
         k = op[0]
-        if k in ("set", "def", "iop"):
+        if k in ("set", "def", "iop", "fsetset"):
             L = op[1]
-            if any(T.overlap(L, w) for w in fk):
+            if k == "set" and ms.spec.get("name") == "W-knobs":
+                # a plain value may be assigned to a target of a LINEAR KNOB (the knob is incremental: it adds w * delta later)
+                if any(T.overlap(L, w) for w in fonly):
+                    continue
+            elif any(T.overlap(L, w) for w in fk):
                 continue
             if k == "def":
                 if not allow_cycles and not ms.p_acyclic_with(L, op[2]):
@@ -250,8 +265,9 @@ def enabled(ms, universe, allow_cycles=False):
             spec = ms.spec["funs" if k == "regfun" else "knobs"][op[1]]
             writes = spec[1] if k == "regfun" else spec[2]
             reads = spec[0] if k == "regfun" else (spec[0],)
-            # targets must not already be defined or written by another task
-            if any(any(T.overlap(w, w2) for w2 in t.writes) for t in ms.tasks.values() for w in writes):
+            # targets must not already be defined or written by another task (two linear knobs may share a target: both add)
+            if any(any(T.overlap(w, w2) for w2 in t.writes) for t in ms.tasks.values() for w in writes
+                   if not (k == "regknob" and t.kind == "K")):
                 continue
             # the knob source / function inputs must not be made cyclic
             new = RM.fun_task(op[1], spec) if k == "regfun" else RM.knob_task(op[1], spec, 0)
@@ -505,6 +521,8 @@ class Verdict:
 
 def judge(w, ms_pre, op, ns, ex, exc):
     """Compare one executed transition with the model's prescription."""
+    if op[0] == "fsetset":
+        op = ("set", op[1], op[2])      # a failed-then-repeated assignment is judged as the assignment
     if ex.raises and ex.raises.endswith("?"):
         if exc is not None and type(exc).__name__ != ex.raises[:-1]:
             return Verdict("violation", f"expected {ex.raises[:-1]} or success, got {type(exc).__name__}")
